@@ -231,6 +231,7 @@ func init() {
 		}
 		return fbits(lon) + ":" + fbits(lat) + ":" + fbits(alt) + ":" + fbits(u)
 	}
+	join4 := func(a, b, c, d string) string { return a + ":" + b + ":" + c + ":" + d }
 	register("newpt", func(n int) {
 		for i := 0; i < n; i++ {
 			f := strings.Split(mkpt(randZoom(), randZoom()), ":")
@@ -245,11 +246,36 @@ func init() {
 				k = rng.Intn(4)
 			}
 			l := []string{}
-			for j := 0; j < k; j++ {
-				if rng.Intn(60) == 0 {
-					l = append(l, "nil:0:0:0")
-				} else {
-					l = append(l, mkpt(h, v))
+			if rng.Intn(3) == 0 {
+				// a path over a small pool of positions and altitudes: repeated positions, runs of equal altitude, the same
+				// position at different altitudes, returns to the start (closed rings, out-and-back) — each element of the
+				// result must depend on its own point only
+				np, na := 1+rng.Intn(3), 1+rng.Intn(2)
+				pos := make([][]string, np)
+				for j := range pos {
+					pos[j] = strings.Split(mkpt(h, v), ":")
+				}
+				alts := make([]string, na)
+				for j := range alts {
+					alts[j] = strings.Split(mkpt(h, v), ":")[2]
+				}
+				k = 2 + rng.Intn(7)
+				for j := 0; j < k; j++ {
+					q := pos[rng.Intn(np)]
+					if j == k-1 && rng.Intn(2) == 0 {
+						q = strings.Split(l[0], ":") // back to the start
+						l = append(l, join4(q[0], q[1], q[2], q[3]))
+						continue
+					}
+					l = append(l, join4(q[0], q[1], alts[rng.Intn(na)], q[3]))
+				}
+			} else {
+				for j := 0; j < k; j++ {
+					if rng.Intn(60) == 0 {
+						l = append(l, "nil:0:0:0")
+					} else {
+						l = append(l, mkpt(h, v))
+					}
 				}
 			}
 			switch rng.Intn(50) {
@@ -275,9 +301,35 @@ func init() {
 		}
 		return []string{id, s(opt), fbits(oracleRowLat(k, hLimit)), fbits(oracleRowLat(k+1, hLimit))}
 	}
+	// truncRow: a row boundary k of zoom h whose latitude lies within a few units of rounding of a multiple of 1e-10 degree — where
+	// the truncation of SetLat turns a last-bit difference in the evaluation of the edge into a different reported coordinate.
+	// (Found by search: about one row in 5000 qualifies; each trial is a handful of float operations.)
+	truncRow := func(h int64) (int64, bool) {
+		hLimit := math.Pow(2, float64(h))
+		for t := 0; t < 40000; t++ {
+			k := 1 + rng.Int63n(pow2(h)-1)
+			v := oracleRowLat(float64(k), hLimit) * 1e10
+			if d := math.Abs(v - math.Round(v)); d < 2e-4 {
+				return k, true
+			}
+		}
+		return 0, false
+	}
 	register("geom", func(n int) {
 		for i := 0; i < n; i++ {
 			e := randExt()
+			if rng.Intn(12) == 0 {
+				// the voxel above and the voxel below a truncation-sensitive row boundary: they must report the same latitude for it
+				h := int64(12 + rng.Intn(24))
+				if k, ok := truncRow(h); ok {
+					e = randExtAt(h, randZoom())
+					e.y = k - 1
+					do("geom", geomArgs(e, e.id(), 0)...)
+					e.y = k
+					do("geom", geomArgs(e, e.id(), 0)...)
+					continue
+				}
+			}
 			if rng.Intn(30) == 0 { // out-of-range indices: wrap and clamp paths
 				e.x += pow2(e.h) * int64(rng.Intn(5)-2)
 				e.y += int64(rng.Intn(5) - 2)
